@@ -3,6 +3,7 @@ CONSTANTS
   Cases <- LoopCases
   Expand <- McExpand
   Slice = "closed"
+  IndexFrom = "chunk"
   MaxN = 0
   MaxB = 3
   MaxF = 0
